@@ -149,6 +149,16 @@ def stress_documents(rng, quick):
                     else:
                         d += (b"POST" if b"Request" in (l if i == k else good[(i + li) % len(good)]) else b"GET") + b" /p%d\n" % i + (l if i == k else good[(i + li) % len(good)])
                 docs.append(("bodies", d))
+    # bodies given by the NAME of a user type of every notation (jsight object, scalar, regex, any), as the parameter of Request /
+    # a response, as a Body parameter, as the body text, as an array of the type, and through an alias
+    tdecl = [b"TYPE @tok regex\n  /[a-z]{3}-[0-9]{2}/\n", b"TYPE @obj\n  {\n    \"k\": 1\n  }\n", b"TYPE @str\n  \"abc\"\n", b"TYPE @whatever any\n",
+             b"TYPE @alias\n  @tok\n", b"TYPE @alias2\n  @obj\n"]
+    for tn in (b"@tok", b"@obj", b"@str", b"@whatever", b"@alias", b"@alias2"):
+        for form in (b"POST /b\n  Request %s\n  200 %s\n", b"POST /b\n  Request\n    Body %s\n  200\n    Body %s\n", b"POST /b\n  Request\n    %s\n  200\n    %s\n",
+                     b"POST /b\n  Request [%s]\n  200 [%s]\n", b"GET /b\n  200 %s\n  404 %s\n"):
+            for order in (0, 1):
+                blk = form % (tn, tn)
+                docs.append(("bodies", J + (b"".join(tdecl) + blk if order == 0 else blk + b"".join(tdecl))))
     return docs
 
 
